@@ -75,6 +75,12 @@ def swapSame (lit : Counters) : BStep → Bool
 
 def ResetOK (lit : Counters) (pc : List BStep) : Prop := (∀ s ∈ pc, swapSame lit s = true) ∧ pc.Nodup
 
+instance (lit : Counters) (pc : List BStep) : Decidable (ResetOK lit pc) := by unfold ResetOK; infer_instance
+
+def isAddG : Gen.C14.Step → Bool
+  | .add _ _ => true
+  | _ => false
+
 def SnapTh.idlePhase (s : SnapTh) : Prop :=
   match s.phase with
   | .anon => False
@@ -90,7 +96,7 @@ def Thread.WF : Thread → Prop
 /-- facts about the regenerated programs the invariants rest on (each is closed by evaluation in
 `SSV.C14.gen_ok`; a change of the source that falsifies one re-opens every theorem below) -/
 structure GenOK : Prop where
-  collect_adds : ∀ i : Inner, ∀ s ∈ innerProg i, (match s with | .add _ _ => true | _ => false) = true
+  collect_adds : ∀ i : Inner, ∀ s ∈ innerProg i, isAddG s = true
   reset_anon : ResetOK Counters.zero ((snapProg (shapeOf true).anonKind).map (bindStep []))
   reset_user : ResetOK Counters.zero ((snapProg (shapeOf true).userKind).map (bindStep []))
   load_anon : ∀ x ∈ (snapProg (shapeOf false).anonKind).map (bindStep []), isLoad x = true
@@ -103,7 +109,7 @@ theorem collectPc_adds (g : GenOK) (c : Call) (x0 x1 : Nat) : ∀ s ∈ collectP
   simp only [List.mem_map] at hs
   obtain ⟨s0, h0, rfl⟩ := hs
   have := g.collect_adds _ s0 h0
-  cases s0 <;> simp_all [bindStep, isAdd]
+  cases s0 <;> simp_all [bindStep, isAdd, isAddG]
 
 theorem mkCollect_WF (g : GenOK) (c : Call) (u : String) (x0 x1 : Nat) : (Thread.collect (mkCollect c u x0 x1)).WF := by
   simp only [Thread.WF, mkCollect]
